@@ -1,5 +1,6 @@
 import IstioModel.Common.Wire
 import IstioModel.C17.Model
+import IstioModel.C17.Pipeline
 import IstioModel.C17.Monitor
 
 /-! Line-protocol driver for C17 (streams `cmp` and `mon`). See harness/c17. -/
@@ -30,7 +31,30 @@ def parseSvc (e : String) : Option Svc :=
   match fieldsOf e with
   | [i, t, n, s, o, h, a] =>
     some { id := i.toNat!, time := t.toNat!, name := n, ns := s, objName := o, host := h, addr := a }
+  | [i, t, n, s, o, h, a, k] =>
+    some { id := i.toNat!, time := t.toNat!, name := n, ns := s, objName := o, host := h, addr := a, kube := k == "1" }
   | _ => none
+
+def parseInt (s : String) : Int :=
+  if s.startsWith "-" then -((s.drop 1).toString.toNat! : Int) else (s.toNat! : Int)
+
+def parsePair (e : String) : Option (String × String) :=
+  match fieldsOf e with
+  | [a, b] => some (a, b)
+  | _ => none
+
+def parseEF (e : String) : Option EF :=
+  match fieldsOf e with
+  | [i, ns, n, p, t, z] => some { id := i.toNat!, ns := ns, name := n, prio := parseInt p, time := t.toNat!, zone := z.toNat! }
+  | _ => none
+
+def parseTE (e : String) : Option TE :=
+  match fieldsOf e with
+  | [i, t, n, ns, p, ph] =>
+    some { id := i.toNat!, time := t.toNat!, name := n, ns := ns, prio := if p == "-" then none else some (parseInt p), phase := ph.toNat! }
+  | _ => none
+
+def showIds {α : Type} (idOf : α → Nat) (l : List α) : String := joinElems (l.map (fun x => toString (idOf x)))
 
 /-- `ns;kube;time;visible`: only visible entries take part (`IsServiceVisible` is C07's subject). -/
 def parseNsSvc (e : String) : Option NsSvc :=
@@ -81,13 +105,11 @@ def parseShard (t : String) : Option (ShardKey × List Ep) :=
   | [p, c, eps] => some ({ provider := dec p, cluster := dec c }, (elems eps).filterMap parseEp)
   | _ => none
 
-/-- The `eds` op: shards with endpoints live in the `Shards` map (an update with no endpoints deletes
-    the shard); `snapshotShards` concatenates them in `Keys()` order; `generate` groups by locality. -/
+/-- The `eds` op: pipeline P3; the enumeration of `localityEpMap` handed to the model is the
+    first-occurrence order (any other gives the same result: `cla_perm`). -/
 def edsOp (toks : List String) : String :=
-  let shards := (toks.filterMap parseShard).filter (fun s => !s.2.isEmpty)
-  let keys := shardKeys (shards.map (·.1))
-  let eps := keys.flatMap (fun k => (shards.filter (fun s => s.1 = k)).flatMap (·.2))
-  let groups := groupByLocality eps (localitiesOf eps)
+  let shards := toks.filterMap parseShard
+  let groups := clusterLoadAssignment shards (localitiesOf (claEndpoints shards))
   joinElems (groups.map (fun g => enc g.1 ++ ":" ++ "+".intercalate (g.2.map toString)))
 
 def showMt (x : Mt) : String := (if x.invert then "!" else "") ++ enc x.name ++ "@" ++ toString x.m
@@ -117,6 +139,27 @@ def stepCmp (toks : List String) : String :=
       encList (isort strLess (r.filter (fun t => !pushOrder.contains t)))
   | "eds" :: shards => edsOp shards
   | ["pick", l, _] => enc (pickBest ((elems l).filterMap parseNsSvc))
+  | ["pickf", l, _] =>
+    enc (pickFirst (((elems l).filterMap parsePair).filterMap (fun p => if p.2 == "1" then some p.1 else none)))
+  | ["sidx", l] =>
+    let listing := (elems l).filterMap parseSvc
+    let idx := (serviceIndex listing).map (fun e => enc e.1.1 ++ ";" ++ enc e.1.2 ++ "=" ++ toString e.2.id)
+    s!"pub={showIds (·.id) (sortServicesByCreationTime listing)} idx={joinElems (isort strLess idx)}"
+  | ["alias", _, l] =>
+    joinElems ((sortAliases ((elems l).filterMap parsePair)).map (fun a => enc a.1 ++ ";" ++ enc a.2))
+  | ["vh", l] =>
+    let svcs := ((elems l).filterMap parsePair).map (fun p => ({ host := p.1, vip := p.2 } : VSvc))
+    let own := (vipOwners svcs).map (fun o => enc o.1 ++ ":" ++ boolTok o.2)
+    s!"own={joinElems (isort strLess own)} svcs={joinElems ((routeCacheServices (svcs.map (·.host))).map enc)}"
+  | ["ef", l, ns] => showIds (·.id) (envoyFilterOrder "istio-system" (dec ns) ((elems l).filterMap parseEF))
+  | ["te", l, ns] =>
+    let listing := (elems l).filterMap parseTE
+    " ".intercalate ((List.range 4).map (fun ph =>
+      toString ph ++ ":" ++ showIds (·.id) (trafficExtensions "istio-system" (dec ns) listing ph)))
+  | ["inb", l] => joinElems (((sortedPorts ((elems l).map (·.toNat!))).eraseDups).map toString)
+  | ["lst", l] =>
+    let keys := ((elems l).filterMap parsePair).map (fun p => ({ bind := p.1, port := p.2.toNat! } : LKey))
+    joinElems (((sortedLKeys keys).eraseDups).map (fun k => k.bind ++ "_" ++ toString k.port))
   | "slices" :: sl =>
     joinElems ((sliceEndpoints (sl.filterMap parseSlice)).map (fun e => enc e.1 ++ "@" ++ toString e.2))
   | ["hdr", h, w, q, mas] =>
@@ -133,6 +176,7 @@ def stepMon (toks : List String) : String :=
 def step (s : Unit) (toks : List String) : Unit × String :=
   match toks with
   | "obs" :: _ => (s, stepMon toks)
+  | "skip" :: _ => (s, "skip")
   | _ => (s, stepCmp toks)
 
 end IstioModel.C17
